@@ -148,8 +148,23 @@ def impl_job(job):
         db, hd = GD.build(spec)
     except Exception as e:  # noqa: BLE001
         return {'skip': 'build:' + type(e).__name__}
-    # render once before editing: a cache would be filled now
-    _ = O.run(lambda: db.sql), O.run(lambda: db.dbml)
+    changed = []
+
+    def render_now(when):
+        """evaluate the renderings (a cache would be filled now); reading them must leave the model as it is"""
+        try:
+            d0 = O.dump_db(db)
+        except (O.OutOfModel, O.NotADatabase):
+            d0 = None
+        O.run(lambda: db.sql)
+        if d0 is not None:
+            try:
+                if O.dump_db(db) != d0:
+                    changed.append(when + ': .sql')
+            except (O.OutOfModel, O.NotADatabase):
+                changed.append(when + ': .sql (model left the value domain)')
+        O.run(lambda: db.dbml)
+    render_now('before the first edit')
     edits = []
     for k in range(n_edits):
         kind = rng.choice(EDITS)
@@ -160,12 +175,12 @@ def impl_job(job):
         if d:
             edits.append(d)
         if rng.random() < 0.3:
-            _ = O.run(lambda: db.sql), O.run(lambda: db.dbml)
+            render_now(f'after edit {k}')
     try:
         dump = O.dump_db(db)
     except O.OutOfModel as e:
         return {'skip': 'outOfModel:' + str(e)}
-    r = {'dump': dump, 'edits': edits, 'spec': spec}
+    r = {'dump': dump, 'edits': edits, 'spec': spec, 'changed': changed}
     r['after'] = elem_renderings(db)
     try:
         fresh, _ = GD.build(dump)
@@ -200,6 +215,9 @@ def main(tier, seed):
                  sample={'edits': r['edits'], 'tables': [t['name'] for t in r['dump']['tables']]} if k % 200 == 0 else None)
         for e in r['edits']:
             ctx.count('edit:' + e)
+        if r.get('changed'):
+            ctx.fail('evaluating a rendering changed the model itself (' + r['changed'][0] + '): later renderings no longer '
+                     'reflect the state the caller built', {'op': 'edits', 'seed': job[0], 'n_edits': job[1]}, edits=r['edits'])
         if 'fresh' in r:
             ctx.count('oracle:fresh-rebuilt')
             for key, v in r['after'].items():
